@@ -1,0 +1,82 @@
+//go:build verif
+
+package syncutils
+
+// Contracts for StarvingMutex, DAGMutex, Counter and Stack (property C17), read by the
+// verification machinery in /verif. Comment-only file.
+//
+// StarvingMutex is a monitor: `mutex` guards readersActive / writerActive / pendingWriters and the
+// ghost state
+//   wg, rg          – outstanding write / read grants (what callers hold)
+//   sleep_C, owed_C – per condition variable C: goroutines asleep on C, notifications promised by
+//                     awake goroutines (recorded with `owe` before the lock is released, paid by the
+//                     Signal/Broadcast that follows outside the lock)
+// The invariant states exclusion (a write grant excludes every other grant) and the absence of lost
+// wake-ups (whenever somebody sleeps, a holder exists whose release will notify, or a notification
+// is owed). It is checked at every release of `mutex`, at every Wait, and for the out-of-lock
+// notifications as atomic ghost actions on an arbitrary state satisfying it.
+
+/*@
+assume-func github.com/iotaledger/hive.go/runtime/debug.GetEnabled() (r)
+  ensures !r                                    -- assumption: deadlock-detection debug mode is off
+
+type StarvingMutex
+  ghost wg Int
+  ghost rg Int
+  monitor mutex guards readersActive, writerActive, pendingWriters, wg, rg cond readerCond, writerCond tokens awake
+  invariant self.readersActive == self.rg && self.rg >= 0 && (self.writerActive <==> self.wg == 1) && 0 <= self.wg && self.wg <= 1
+  invariant self.wg == 1 ==> self.rg == 0                                                       -- exclusion
+  -- every pending writer is asleep, has been woken but not resumed yet, or is awake (holds the token `awake`)
+  invariant self.pendingWriters == self.sleep_writerCond + self.wake_writerCond + self.tok_awake
+  invariant 0 <= self.sleep_writerCond && 0 <= self.wake_writerCond && 0 <= self.tok_awake && 0 <= self.sleep_readerCond && 0 <= self.wake_readerCond
+  invariant 0 <= self.owed_readerCond && 0 <= self.owed_writerCond
+  -- no lost wake-up: whoever sleeps will be notified by a current holder, by an awake pending writer, or by an owed notification
+  invariant self.sleep_readerCond > 0 ==> self.writerActive || self.pendingWriters > 0 || self.owed_readerCond > 0
+  invariant self.sleep_writerCond > 0 ==> self.writerActive || self.readersActive > 0 || self.owed_writerCond > 0 || self.wake_writerCond + self.tok_awake > 0
+
+func NewStarvingMutex
+  ensures r0 != nil && fresh(r0) && unlocked(r0.mutex) && !r0.writerActive && r0.readersActive == 0 && r0.pendingWriters == 0
+
+func StarvingMutex.canWrite
+  requires f != nil && held(f.mutex)
+  ensures r0 <==> !f.writerActive && f.readersActive == 0
+
+-- returns holding one more read grant; only granted in a state without a writer
+func StarvingMutex.RLock
+  requires f != nil && unlocked(f.mutex)
+  modifies monitor(f)
+  opt assume-no-overflow                       -- assumption: fewer than 2^63 readers
+  loop 1 invariant held(f.mutex) && moninv(f)
+  ghost before unlock: f.rg = f.rg + 1
+  ensures unlocked(f.mutex)
+
+func StarvingMutex.Lock
+  requires f != nil && unlocked(f.mutex)
+  modifies monitor(f)
+  opt assume-no-overflow                       -- assumption: fewer than 2^63 pending writers
+  ghost after acquire: take awake              -- this thread is now an awake pending writer (pendingWriters++ follows)
+  loop 1 invariant held(f.mutex) && moninv(f) && mytok(f, awake) == old(mytok(f, awake)) + 1 && f.tok_awake >= mytok(f, awake)
+  ghost before wait: give awake
+  ghost after wait: take awake
+  ghost before unlock: give awake              -- pendingWriters-- happened: no longer pending
+  ghost before unlock: f.wg = f.wg + 1
+  ensures unlocked(f.mutex)
+
+-- releasing: the thread records which notification it will send before it leaves the monitor
+func StarvingMutex.RUnlock
+  requires f != nil && unlocked(f.mutex)
+  modifies monitor(f)
+  panics-when f.readersActive == 0 || f.writerActive            -- unlocking what is not held panics, state untouched
+  ghost before unlock: f.rg = f.rg - 1
+  ghost before unlock: owe writerCond if f.readersActive == 0 && f.pendingWriters > 0
+  ensures unlocked(f.mutex)
+
+func StarvingMutex.Unlock
+  requires f != nil && unlocked(f.mutex)
+  modifies monitor(f)
+  panics-when f.readersActive > 0
+  ghost before unlock: f.wg = 0
+  ghost before unlock: owe readerCond if f.pendingWriters == 0
+  ghost before unlock: owe writerCond if f.pendingWriters > 0
+  ensures unlocked(f.mutex)
+@*/
